@@ -8,6 +8,7 @@ Postconditions are transcribed from the reference sentences in the verbs' docstr
   Reverse r[i] = a[n-1-i]; an operand that is neither list nor string is returned unchanged
   Rotate  r[(i+a) mod n] = b[i] on the OUTER axis for any rank (the NumPy roll contract is rank-aware)
   Split   (single size s) member j is b[j*s : (j+1)*s], the last one short: ceil(n/s) members
+  Cut     consecutive segments of b before the positions in a;  At/Index  a@i the i-th member, a@[i..] those members;  Integer-Divide on atoms (truncation)
   Find    (string) finditer yields the first match at or after the position following the previous one, and terminates
   predicates is_list / is_iterable / is_empty / is_atom / is_char as truth tables over the class lattice
 The arithmetic / comparison / min / max ufunc verbs, grade, group, shape, transpose, amend, reshape, match, index are NOT
@@ -203,6 +204,61 @@ def build(reg, src):
                           variant=lambda s: VInt(z3.Length(s.b.t) - s.q.t),
                           havoc=dict(r=lambda h: VSeq(z3.Const(fresh_name(h), SeqSeq))))})
 
+    # ---------------- Cut: consecutive segments of b, cut before the positions in a (increasing, within the list)
+    SeqI = z3.SeqSort(Int)
+
+    def cut_case(kind):
+        def f(eng, st):
+            vec('b')(eng, st)
+            st.env['a'] = VSeq(z3.Const('a_pts', SeqI)) if kind == 'list' else fresh(Int, 'a')
+        return f
+
+    def cut_pts(s):
+        return s.a0.t if isinstance(s.a0, VSeq) else z3.Unit(s.a0.t)
+
+    def cut_req(s):
+        p, n = (s.a.t if isinstance(s.a, VSeq) else z3.Unit(s.a.t)), z3.Length(s.b.t)
+        k = z3.Const(fresh_name('k'), Int)
+        return VBool(z3.And(n > 0, z3.Length(p) >= 1, z3.ForAll([k], z3.Implies(z3.And(k >= 0, k < z3.Length(p)),
+                                                                               z3.And(p[k] >= 0, p[k] <= n, z3.Implies(k > 0, p[k - 1] <= p[k]))))))
+
+    def cut_post(s, r):
+        if not isinstance(r, VSeq) or r.t.sort() != SeqSeq:
+            return VBool(False)
+        p, b, n = cut_pts(s), B(s), N(s)
+        k_ = z3.Length(p)
+        lo = lambda x: z3.If(x == 0, 0, p[x - 1])
+        hi = lambda x: z3.If(x == k_, n, p[x])
+        return VBool(z3.And(z3.Length(r.t) == k_ + 1, z3.ForAll([jj], z3.Implies(z3.And(jj >= 0, jj <= k_), r.t[jj] == z3.SubSeq(b, lo(jj), hi(jj) - lo(jj))))))
+    reg.fn(DY + 'eval_dyad_cut', cases=[('positions', cut_case('list')), ('position', cut_case('int'))], requires=[cut_req], returns='opaque', ensures=[cut_post])
+
+    # ---------------- At/Index on a list: a@i is the i-th member, a@[i1 ... ik] the list of those members (0 <= i < #a)
+    def at_case(kind):
+        def f(eng, st):
+            st.env['klong'] = st.alloc('KlongInterpreter', dict(_backend=VOpaque(hint='backend', nonnull=True)), hint='klong', fresh=False)
+            st.env['a'] = VSeq(z3.Const('a_seq', SeqObj))
+            st.env['b'] = VSeq(z3.Const('b_idx', SeqI)) if kind == 'list' else fresh(Int, 'b')
+        return f
+
+    def at_req(s):
+        n = z3.Length(s.a.t)
+        if isinstance(s.b, VSeq):
+            k = z3.Const(fresh_name('k'), Int)
+            return VBool(z3.ForAll([k], z3.Implies(z3.And(k >= 0, k < z3.Length(s.b.t)), z3.And(s.b.t[k] >= 0, s.b.t[k] < n))))
+        return VBool(z3.And(s.b.t >= 0, s.b.t < n))
+
+    def at_post(s, r):
+        a = s.a0.t
+        if isinstance(s.b0, VSeq):
+            idx = s.b0.t
+            if isinstance(r, VList) and not r.items:
+                return VBool(z3.Length(idx) == 0)
+            if not isinstance(r, VSeq):
+                return VBool(False)
+            return VBool(z3.And(z3.Length(r.t) == z3.Length(idx), z3.ForAll([jj], z3.Implies(z3.And(jj >= 0, jj < z3.Length(idx)), r.t[jj] == a[idx[jj]]))))
+        return VBool(r.t == a[s.b0.t]) if isinstance(r, VOpaque) else VBool(False)
+    reg.fn(DY + 'eval_dyad_at_index', cases=[('indices', at_case('list')), ('index', at_case('int'))], requires=[at_req], returns='opaque', ensures=[at_post])
+
     # ---------------- Integer-Divide on integer atoms: the integer part of the quotient (truncation toward zero), b != 0
     def idiv_setup(eng, st):
         st.env['x'] = fresh(Int, 'x')
@@ -326,6 +382,8 @@ def configure(eng):
     X['is_iterable'] = lambda e, st, a, k, n: [(st, VBool(is_seq(a[0])))]
     X['is_empty'] = lambda e, st, a, k, n: [(st, VBool(z3.Length(a[0].t) == 0) if is_seq(a[0]) else VBool(False))]
     X['is_list'] = lambda e, st, a, k, n: [(st, VBool(is_seq(a[0])))]
+    X['backend.is_integer'] = lambda e, st, a, k, n: [(st, VBool(isinstance(a[0], VInt)))]
+    X['klong._backend.is_array'] = lambda e, st, a, k, n: [(st, VBool(is_seq(a[0])))]
 
     def np_divide(e, st, a, k, n):
         x, y = a
@@ -389,8 +447,28 @@ def configure(eng):
 
     def array_split(e, st, a, k, n):
         b, cnt = a
+        if isinstance(cnt, (VSeq, VList)):
+            # explicit cut points p0 <= p1 <= ...: sections b[0:p0], b[p0:p1], ..., b[pk:]  (NumPy contract, basic slicing: clamped)
+            if isinstance(cnt, VList):
+                if not all(isinstance(x, VInt) for x in cnt.items):
+                    raise Refuse("array_split at non-integer positions")
+                pts = z3.Empty(z3.SeqSort(Int))
+                for x in cnt.items:
+                    pts = z3.Concat(pts, z3.Unit(x.t))
+            else:
+                pts = cnt.t
+            nb = z3.Length(b.t)
+            k_ = z3.Length(pts)
+            R = z3.Const(fresh_name('sections'), SeqSeq)
+            j = z3.Const(fresh_name('j'), Int)
+            cl = lambda x: z3.If(x < 0, z3.If(x + nb < 0, 0, x + nb), z3.If(x > nb, nb, x))
+            lo = lambda x: z3.If(x == 0, 0, cl(pts[x - 1]))
+            hi = lambda x: z3.If(x == k_, nb, cl(pts[x]))
+            st.assume(z3.And(z3.Length(R) == k_ + 1, z3.ForAll([j], z3.Implies(z3.And(j >= 0, j <= k_),
+                                                                                 R[j] == z3.SubSeq(b.t, lo(j), z3.If(hi(j) - lo(j) < 0, 0, hi(j) - lo(j)))))))
+            return [(st, VSeq(R))] + e.maybe_raise(st, 'array_split', n)
         if not isinstance(cnt, VInt):
-            raise Refuse("array_split with explicit indices is not modelled")
+            raise Refuse("array_split with this second argument is not modelled")
         nb = z3.Length(b.t)
         R = z3.Const(fresh_name('sections'), SeqSeq)
         j = z3.Const(fresh_name('j'), Int)
@@ -424,6 +502,20 @@ def configure(eng):
 
     def comprehension(e, node, kind, it, st):
         """[b[q:q+s] for q in range(0, n, s)]: the REAL element expression on the generic j-th step"""
+        if kind == 'list' and isinstance(it, VSeq) and it.t.sort() == z3.SeqSort(Int) and not node.generators[0].ifs and len(node.generators) == 1:
+            # [elt for x in <sequence of integers>]: the real element expression on the generic j-th member
+            j = z3.Const(fresh_name('j'), Int)
+            cnt = z3.Length(it.t)
+            s1 = st.fork()
+            s1.assume(z3.And(j >= 0, j < cnt))
+            # facts quantified over the members hold for the generic one: instantiate the requires at j
+            e.assign_target(node.generators[0].target, VInt(it.t[j]), s1, node)
+            outs = [(s2, v) for s2, v in e.ev(node.elt, s1) if not isinstance(v, Raised)]
+            if len(outs) != 1:
+                raise Refuse("comprehension body over an index list forks")
+            R = z3.Const(fresh_name('picked'), SeqObj)
+            st.assume(z3.And(z3.Length(R) == cnt, z3.ForAll([j], z3.Implies(z3.And(j >= 0, j < cnt), R[j] == e.as_obj(outs[0][1])))))
+            return [(st, VSeq(R))]
         if kind == 'list' and isinstance(it, VTuple) and it.items and it.items[0] == 'range' and len(it.items) == 4:
             lo, hi, stp = it.items[1:]
             j = z3.Const(fresh_name('j'), Int)
